@@ -23,7 +23,8 @@ MOD = 'vlib.fixtures.decodables'
 ALT = 'vlib.fixtures.decodables_alt'
 RULE = ('cases: seeded descriptions with 0-4 systems (arbitrary priorities, frequency/start/end given or defaulted, arbitrary ids), 0-3 agent '
         'groups of size 0-5, every subset of the optional hooks (pre/post model, pre/post per system, pre/post per agent group), entries resolved in one module or in two '
-        'modules defining the same symbol names, models that are already complete while being decoded; decoded '
+        'modules defining the same symbol names, models that are already complete while being decoded, hooks that decode a nested description with the same decoder object, '
+        'hooks that give the model a new environment, system classes that only resolve once their pre hook ran; decoded '
         'through a dict-returning Decoder subclass and through JsonDecoder on real temporary files, the same file twice and several files in '
         'one process. Oracle: the recorded event sequence equals the expected one; every system/agent factory and every system-/agent-level '
         'hook received the decoded model; a post-system hook sees its system registered, a pre-system hook does not; agent i is created after '
@@ -34,7 +35,8 @@ ASSUMPTIONS = ['fixtures record what they are handed; the model-level hooks are 
                'most recently created model', 'descriptions are well-formed (unique system ids)']
 FLOORS = {'quick': {'decodes': 2000, 'events_compared': 15000, 'json_decodes': 800, 'dict_decodes': 800, 'repeat_decodes': 300,
                     'groups_of_size_zero': 200, 'descriptions_without_systems': 100, 'descriptions_without_agents': 100,
-                    'hooks_run': 5000, 'agents_created': 3000, 'complete_models': 300, 'two_module_descriptions': 200, 'reach:Decode.Decoder.decode': 2000, 'reach:Decode.JsonDecoder.open_file': 800},
+                    'hooks_run': 5000, 'agents_created': 3000, 'complete_models': 300, 'two_module_descriptions': 200, 'nested_decodes_during_decode': 200, 'late_bound_system_classes': 200,
+                    'environment_replaced_by_hook': 100, 'reach:Decode.Decoder.decode': 2000, 'reach:Decode.JsonDecoder.open_file': 800},
           'thorough': {'decodes': 150000}}
 EXHAUSTIVE = {}
 
@@ -49,8 +51,13 @@ def gen_description(rng, label):
     if rng.random() < 0.25:
         d['model']['params']['complete'] = True
 
-    def h(kind, name=None):
-        return {'func': 'hook', 'module': mod(), 'params': {'kind': kind, 'name': name}}
+    def h(kind, name=None, module=None):
+        hk = {'func': 'hook', 'module': module or mod(), 'params': {'kind': kind, 'name': name}}
+        if kind in ('pre_sys', 'post_sys', 'pre_agents', 'post_agents') and rng.random() < 0.12:
+            hk['params']['nested'] = True          # decodes a sub-model with the same decoder object
+        if kind in ('pre_agents', 'post_agents') and rng.random() < 0.12:
+            hk['params']['replace_env'] = True     # gives the model a new environment
+        return hk
 
     if rng.random() < 0.5:
         d['pre_model_decode'] = h('pre_model', label)
@@ -68,7 +75,12 @@ def gen_description(rng, label):
         if rng.random() < 0.4:
             p['end'] = rng.randint(5, 50)
         s = {'name': 'RSystem', 'module': mod(), 'params': p}
-        if rng.random() < 0.5:
+        if rng.random() < 0.15:
+            # the class name only resolves once this system's pre hook has run (plug-in style late binding)
+            s['name'] = 'DynSystem'
+            s['pre_system_init'] = h('pre_sys', sid, module=s['module'])
+            s['pre_system_init']['params']['bind'] = 'DynSystem'
+        elif rng.random() < 0.5:
             s['pre_system_init'] = h('pre_sys', sid)
         if rng.random() < 0.5:
             s['post_system_init'] = h('post_sys', sid)
@@ -102,22 +114,34 @@ def expected_events(d):
         g = a['params']['group']
         if 'pre_agent_init' in a:
             ev.append(('pre_agents', g, None, sorted(reg), n, 'model', a['pre_agent_init']['module']))
+            if a['pre_agent_init']['params'].get('replace_env'):
+                n = 0
         for i in range(a['number']):
             ev.append(('agent_create', g, i, sorted(reg), n, 'model', a['module']))
             n += 1
         if 'post_agent_init' in a:
             ev.append(('post_agents', g, None, sorted(reg), n, 'model', a['post_agent_init']['module']))
+            if a['post_agent_init']['params'].get('replace_env'):
+                n = 0
     if 'post_model_decode' in d:
         ev.append(('post_model', d['model']['params']['label'], None, sorted(reg), n, 'nomodel', d['post_model_decode']['module']))
     return ev
 
 
-def decode_and_check(ctx, decoder, arg, d, how):
+def decode_and_check(ctx, decoder, arg, d, how, inner=None):
     from vlib.fixtures import decodables as fx
     import ECAgent.Core as core
+    from vlib.fixtures import decodables_alt as fx2
+    from vlib.fixtures.decodables_state import SHARED
     del fx.EVENTS[:]
     fx.CURRENT[0] = None
+    fx.DynSystem = fx2.DynSystem = None
+    SHARED['decoder'] = decoder
+    SHARED['inner'] = inner
+    SHARED['nested_runs'] = 0
     model = decoder.decode(arg)
+    ctx.count('nested_decodes_during_decode', SHARED['nested_runs'])
+    ctx.count('late_bound_system_classes', sum(1 for s_ in d['systems'] if s_['name'] == 'DynSystem'))
     got = list(fx.EVENTS)
     exp = expected_events(d)
     ctx.count('decodes')
@@ -159,7 +183,15 @@ def decode_and_check(ctx, decoder, arg, d, how):
         want = (p.get('priority', 0), p.get('frequency', 1), p.get('start', 0), p.get('end', sys.maxsize))
         check((s.priority, s.frequency, s.start, s.end) == want, f'system {sid!r} scheduling {(s.priority, s.frequency, s.start, s.end)} != declared {want}', **detail)
         check(s.model is model, f'system {sid!r} does not belong to the decoded model', **detail)
-    want_agents = [f"{a['params']['group']}_{i}" for a in d['agents'] for i in range(a['number'])]
+    want_agents = []
+    for a in d['agents']:          # agents live in the environment the model had when they were added
+        if 'pre_agent_init' in a and a['pre_agent_init']['params'].get('replace_env'):
+            want_agents = []
+            ctx.count('environment_replaced_by_hook')
+        want_agents += [f"{a['params']['group']}_{i}" for i in range(a['number'])]
+        if 'post_agent_init' in a and a['post_agent_init']['params'].get('replace_env'):
+            want_agents = []
+            ctx.count('environment_replaced_by_hook')
     got_agents = [a.id for a in model.environment]
     check(got_agents == want_agents, f'environment holds {got_agents}, expected {want_agents}', **detail)
     check(all(a.model is model for a in model.environment), 'an agent does not belong to the decoded model', **detail)
@@ -186,16 +218,23 @@ def case_desc(ctx, case):
             with open(pth, 'w') as f:
                 json.dump(d, f)
             paths.append(pth)
+        inner_desc = {'model': {'name': 'RModel', 'module': MOD, 'params': {'label': 'inner'}},
+                      'systems': [{'name': 'RSystem', 'module': MOD, 'params': {'id': 'inner_sys'},
+                                   'post_system_init': {'func': 'hook', 'module': MOD, 'params': {'kind': 'post_sys', 'name': 'inner_sys'}}}],
+                      'agents': [{'name': 'RAgent', 'module': MOD, 'number': 2, 'params': {'group': 'inner'}}]}
+        inner_path = os.path.join(tmp, 'inner.json')
+        with open(inner_path, 'w') as f:
+            json.dump(inner_desc, f)
         order = [(k, how) for k in range(n_files) for how in rng.sample(['json', 'dict', 'json'], rng.randint(1, 3))]
         rng.shuffle(order)
         seen = set()
         for k, how in order:
             d = descs[k]
             if how == 'json':
-                m = decode_and_check(ctx, decode.JsonDecoder(), paths[k], d, 'JsonDecoder')
+                m = decode_and_check(ctx, decode.JsonDecoder(), paths[k], d, 'JsonDecoder', inner=inner_path)
                 ctx.count('json_decodes')
             else:
-                m = decode_and_check(ctx, DictDecoder(), copy.deepcopy(d), d, 'dict Decoder')
+                m = decode_and_check(ctx, DictDecoder(), copy.deepcopy(d), d, 'dict Decoder', inner=inner_desc)
                 ctx.count('dict_decodes')
             if k in seen:
                 ctx.count('repeat_decodes')
